@@ -68,21 +68,57 @@ def _t(x: Any) -> Any:
     return z3.IntVal(x)
 
 
+def _b(x: Any) -> tuple[Any, Any]:
+    if isinstance(x, SymInt):
+        return x.lo, x.hi
+    return int(x), int(x)
+
+
+def _iv(op: str, a: tuple[Any, Any], b: tuple[Any, Any]) -> tuple[Any, Any]:
+    if None in a or None in b:
+        return None, None
+    if op == "+":
+        return a[0] + b[0], a[1] + b[1]
+    if op == "-":
+        return a[0] - b[1], a[1] - b[0]
+    c = [a[0] * b[0], a[0] * b[1], a[1] * b[0], a[1] * b[1]]
+    return min(c), max(c)
+
+
 class SymInt:
-    def __init__(self, expr: Any):
-        self.expr = expr
+    """z3 Int term with an optional concrete interval [lo, hi] (needed only when the code converts it to a float)"""
 
-    def __add__(self, o: Any) -> "SymInt": return SymInt(self.expr + _t(o))
-    def __radd__(self, o: Any) -> "SymInt": return SymInt(_t(o) + self.expr)
-    def __sub__(self, o: Any) -> "SymInt": return SymInt(self.expr - _t(o))
-    def __rsub__(self, o: Any) -> "SymInt": return SymInt(_t(o) - self.expr)
+    def __init__(self, expr: Any, lo: Any = None, hi: Any = None):
+        self.expr, self.lo, self.hi = expr, lo, hi
 
-    def __mul__(self, o: Any) -> "SymInt":
+    def __add__(self, o: Any) -> Any:
+        if isinstance(o, (float, SymFloat)):
+            return SymFloat.of(self) + o
+        return SymInt(self.expr + _t(o), *_iv("+", _b(self), _b(o)))
+
+    def __radd__(self, o: Any) -> Any:
+        if isinstance(o, (float, SymFloat)):
+            return SymFloat.of(o) + self
+        return SymInt(_t(o) + self.expr, *_iv("+", _b(o), _b(self)))
+
+    def __sub__(self, o: Any) -> Any:
+        if isinstance(o, (float, SymFloat)):
+            return SymFloat.of(self) - o
+        return SymInt(self.expr - _t(o), *_iv("-", _b(self), _b(o)))
+
+    def __rsub__(self, o: Any) -> Any:
+        if isinstance(o, (float, SymFloat)):
+            return SymFloat.of(o) - self
+        return SymInt(_t(o) - self.expr, *_iv("-", _b(o), _b(self)))
+
+    def __mul__(self, o: Any) -> Any:
         if isinstance(o, SymInt):
             raise NotLinearInt("symbolic * symbolic is outside the linear fragment")
+        if isinstance(o, float):
+            return SymFloat.of(self) * o
         if isinstance(o, bool) or not isinstance(o, int):
             raise NotLinearInt(f"multiplication by {o!r} ({type(o).__name__}) leaves integer arithmetic")
-        return SymInt(self.expr * o)
+        return SymInt(self.expr * o, *_iv("*", _b(self), (o, o)))
     __rmul__ = __mul__
 
     def __neg__(self) -> "SymInt": return SymInt(-self.expr)
@@ -119,3 +155,88 @@ def explore(fn: Callable[[], Any], base: list[Any], max_paths: int = 64) -> list
         if len(out) > max_paths:
             raise RuntimeError("too many paths")
     return out
+
+
+# --------------------------------------------------------------------------
+# floats: the integer model of binary64 (vlib/ieee_int.py) behind Python's float operators, so that real code
+# which drifts into float arithmetic (e.g. `* 1e9`) is still executed faithfully
+# --------------------------------------------------------------------------
+from fractions import Fraction as _Fr  # noqa: E402
+
+from vlib import ieee_int as _fp  # noqa: E402
+
+FCTX = _fp.Ctx()
+FLOAT_EVENTS: list[str] = []   # non-empty iff the executed code used float arithmetic on symbolic ints
+
+
+class SymFloat:
+    """list of (guard, sign, m, q, lo, hi): under guard the value is sign * m * 2**q (m >= 0); lo/hi bound |value|"""
+
+    def __init__(self, cases: list[tuple[Any, int, Any, int, Any, Any]]):
+        self.cases = cases
+
+    @staticmethod
+    def of(x: Any) -> "SymFloat":
+        if isinstance(x, SymFloat):
+            return x
+        if isinstance(x, SymInt):
+            if x.lo is None or x.hi is None or x.lo < 0:
+                raise NotLinearInt("float() of a symbolic int without a non-negative interval")
+            FLOAT_EVENTS.append(f"int in [{x.lo}, {x.hi}] converted to float")
+            rng = z3.And(x.expr >= x.lo, x.expr <= x.hi)   # outside its declared interval the conversion has no case
+            return SymFloat([(c.guard, 1, c.m, c.q, c.lo, c.hi) for c in _fp.from_int(FCTX, rng, x.expr, x.lo, x.hi)])
+        f = _Fr(float(x))
+        k = f.denominator.bit_length() - 1
+        return SymFloat([(z3.BoolVal(True), 1 if f >= 0 else -1, z3.IntVal(abs(f.numerator)), -k, abs(f), abs(f))])
+
+    def __mul__(self, o: Any) -> "SymFloat":
+        if not isinstance(o, (int, float)) or isinstance(o, bool) or o <= 0:
+            raise NotLinearInt("float multiplication by a non-constant or non-positive factor")
+        out = []
+        for g, sg, m, q, lo, hi in self.cases:
+            for c in _fp.mul_const(FCTX, [_fp.FCase(g, m, q, lo, hi)], _Fr(float(o))):
+                out.append((c.guard, sg, c.m, c.q, c.lo, c.hi))
+        return SymFloat(out)
+    __rmul__ = __mul__
+
+    def _addsub(self, o: Any, sub: bool) -> "SymFloat":
+        o = SymFloat.of(o)
+        out = []
+        for g1, s1, m1, q1, lo1, hi1 in self.cases:
+            for g2, s2, m2, q2, lo2, hi2 in o.cases:
+                s2e = -s2 if sub else s2
+                q = min(q1, q2)
+                A = s1 * m1 * 2 ** (q1 - q) + s2e * m2 * 2 ** (q2 - q)      # exact sum, in units of 2**q
+                g = z3.And(g1, g2)
+                hi = hi1 + hi2
+                for sign, guard, mag in ((1, z3.And(g, A >= 0), A), (-1, z3.And(g, A < 0), -A)):
+                    for c in _fp.rne_rational(FCTX, guard, mag, _Fr(1) / _Fr(2) ** q, _Fr(0), hi):
+                        out.append((c.guard, sign, c.m, c.q, c.lo, c.hi))
+        return SymFloat(out)
+
+    def __add__(self, o: Any) -> "SymFloat": return self._addsub(o, False)
+    def __radd__(self, o: Any) -> "SymFloat": return SymFloat.of(o)._addsub(self, False)
+    def __sub__(self, o: Any) -> "SymFloat": return self._addsub(o, True)
+    def __rsub__(self, o: Any) -> "SymFloat": return SymFloat.of(o)._addsub(self, True)
+
+    def _cmp(self, o: Any, op: str) -> SymBool:
+        o = SymFloat.of(o)
+        alts = []
+        for g1, s1, m1, q1, _l1, _h1 in self.cases:
+            for g2, s2, m2, q2, _l2, _h2 in o.cases:
+                q = min(q1, q2)
+                a, b = s1 * m1 * 2 ** (q1 - q), s2 * m2 * 2 ** (q2 - q)
+                c = {"<": a < b, "<=": a <= b, ">": a > b, ">=": a >= b, "==": a == b, "!=": a != b}[op]
+                alts.append(z3.And(g1, g2, c))
+        return SymBool(z3.Or(alts))
+
+    def __lt__(self, o: Any) -> SymBool: return self._cmp(o, "<")
+    def __le__(self, o: Any) -> SymBool: return self._cmp(o, "<=")
+    def __gt__(self, o: Any) -> SymBool: return self._cmp(o, ">")
+    def __ge__(self, o: Any) -> SymBool: return self._cmp(o, ">=")
+
+    def real_term(self, fresh: Any) -> tuple[Any, Any]:
+        """-> (z3 Real term r, constraint tying r to the cases)"""
+        r = fresh
+        alts = [z3.And(g, r == sg * z3.ToReal(m) * z3.RealVal(_Fr(2) ** q)) for g, sg, m, q, _lo, _hi in self.cases]
+        return r, z3.Or(alts)
